@@ -10,9 +10,11 @@ import (
 	"math/rand"
 	"os"
 	"path/filepath"
+	"runtime"
 	"sort"
 	"strings"
 	"sync"
+	"sync/atomic"
 
 	"github.com/thomasjungblut/go-sstables/recordio"
 	"github.com/thomasjungblut/go-sstables/simpledb"
@@ -47,11 +49,13 @@ func init() {
 }
 
 type c18Result struct {
-	Calls      int64    `json:"calls"`
-	Mismatches []string `json:"mismatches"`
-	Err        string   `json:"err,omitempty"`
-	Flushes    int64    `json:"flushes"`
-	Compacts   int64    `json:"compactions"`
+	Calls       int64    `json:"calls"`
+	Mismatches  []string `json:"mismatches"`
+	Err         string   `json:"err,omitempty"`
+	Flushes     int64    `json:"flushes"`
+	Compacts    int64    `json:"compactions"`
+	Meets       int64    `json:"meets"`
+	ClosedEarly int64    `json:"closed_early"`
 }
 
 func runC18(c *fw.Case) {
@@ -64,7 +68,7 @@ func runC18(c *fw.Case) {
 	procs := []int{4, 2, 16}[(c.Idx/3)%3]
 	seed := fw.CaseSeed("C18-work", c.Seed, c.Idx)
 	c.HashAdd(kind, procs, seed)
-	logBase := filepath.Join(c.Dir, "race.log")
+	logBase := filepath.Join(c.Root, "race.log") // GORACE is split at spaces: not below a hostile name
 	work := filepath.Join(c.Dir, "w")
 	_ = os.MkdirAll(work, 0755)
 	env := []string{"GORACE=halt_on_error=0 log_path=" + logBase + " history_size=2", fmt.Sprintf("GOMAXPROCS=%d", procs)}
@@ -115,6 +119,8 @@ func runC18(c *fw.Case) {
 	c.Obs("concurrent_calls", wr.Calls)
 	c.Obs("db_flushes_during_calls", wr.Flushes)
 	c.Obs("db_compactions_during_calls", wr.Compacts)
+	c.Obs("db_flush_publish_met_compaction_swap", wr.Meets)
+	c.Obs("db_runs_closed_while_calls_in_flight", wr.ClosedEarly)
 	if wr.Err != "" {
 		c.Violate("concurrent/"+kind+"/error", "workload=%s GOMAXPROCS=%d: %s", kind, procs, wr.Err)
 	}
@@ -250,10 +256,58 @@ func c18DB(dir string, seed int64, perG int) c18Result {
 	if err != nil {
 		return c18Result{Err: "open: " + err.Error()}
 	}
-	// shared read-only keys
+	// every other run steers the two background roles towards each other: the flusher waits a bounded number of spins
+	// before it publishes its table for the compactor to be about to swap its result in (and the other way round), then
+	// both go on with a few nanoseconds of skew. Nothing but delays at two named points.
+	var meets atomic.Int64
+	if r.Intn(2) == 0 {
+		var hereF, hereC, sawF, sawC atomic.Int32
+		mk := func(here, saw, otherHere, otherSaw *atomic.Int32, bound int, hs int64) func() {
+			hr := rand.New(rand.NewSource(hs))
+			return func() {
+				here.Store(1)
+				met := false
+				for i := 0; i < bound; i++ {
+					if otherHere.Load() == 1 {
+						met = true
+						break
+					}
+					if i%1024 == 1023 {
+						runtime.Gosched()
+					}
+				}
+				if met {
+					// both are on a processor right now: shake hands, then leave together
+					saw.Store(1)
+					for i := 0; i < 200000 && otherSaw.Load() == 0; i++ {
+					}
+					if otherSaw.Load() == 1 {
+						meets.Add(1)
+					}
+					var sink atomic.Int64
+					for i, n := 0, hr.Intn(80); i < n; i++ {
+						sink.Add(1)
+					}
+				}
+				here.Store(0)
+				saw.Store(0)
+			}
+		}
+		simpledb.VerifSetPoint("flush.beforeAddReader", mk(&hereF, &sawF, &hereC, &sawC, 20000, r.Int63()))
+		simpledb.VerifSetPoint("compaction.reflect.dbLocked", mk(&hereC, &sawC, &hereF, &sawF, 200000, r.Int63()))
+		defer simpledb.VerifSetPoint("flush.beforeAddReader", nil)
+		defer simpledb.VerifSetPoint("compaction.reflect.dbLocked", nil)
+	}
+	// every other run ends with Close WHILE the goroutines are still calling: from then on "already closed" is the one
+	// acceptable error, and Close itself has to succeed
+	closeEarly := r.Intn(2) == 0
+	// shared read-only keys; two of them hold values of 40-70 KiB that end up next to each other in one table
 	shared := map[string]string{}
 	for i := 0; i < 6; i++ {
 		k, v := fmt.Sprintf("shared%d", i), fmt.Sprintf("const-%d", i)
+		if i < 2 {
+			v = strings.Repeat(fmt.Sprintf("big-%d-%d;", i, r.Intn(1000)), 4000+r.Intn(3000))
+		}
 		if err := db.Put(k, v); err != nil {
 			return c18Result{Err: "setup put: " + err.Error()}
 		}
@@ -265,11 +319,15 @@ func c18DB(dir string, seed int64, perG int) c18Result {
 	var cmu sync.Mutex
 	var firstErr error
 	var wg sync.WaitGroup
+	var progress atomic.Int64
+	var closing atomic.Bool
+	var finished atomic.Int32
 	for g := 0; g < 8; g++ {
 		wg.Add(1)
 		gs := r.Int63()
 		go func(g int, gs int64) {
 			defer wg.Done()
+			defer finished.Add(1)
 			gr := rand.New(rand.NewSource(gs))
 			own := map[string]string{}
 			n := int64(0)
@@ -326,6 +384,10 @@ func c18DB(dir string, seed int64, perG int) c18Result {
 					err = db.VerifForceRotate()
 				}
 				n++
+				progress.Add(1)
+				if err != nil && closing.Load() && errors.Is(err, simpledb.ErrAlreadyClosed) {
+					break
+				}
 				if err != nil {
 					cmu.Lock()
 					if firstErr == nil {
@@ -340,14 +402,30 @@ func c18DB(dir string, seed int64, perG int) c18Result {
 			cmu.Unlock()
 		}(g, gs)
 	}
+	var closeErr error
+	closedEarly := false
+	if closeEarly {
+		// a logical point of the run (a third of the calls), not a point in time
+		for progress.Load() < int64(8*perG/3) && finished.Load() < 8 {
+			runtime.Gosched()
+		}
+		closing.Store(true)
+		closeErr = db.Close()
+		closedEarly = true
+	}
 	wg.Wait()
-	res := c18Result{Calls: calls, Mismatches: mm.l,
+	res := c18Result{Calls: calls, Mismatches: mm.l, Meets: meets.Load(),
 		Flushes: simpledb.VerifPointCount("flusher.done") - f0, Compacts: simpledb.VerifPointCount("compaction.reflected") - c0}
 	if firstErr != nil {
 		res.Err = "call failed: " + firstErr.Error()
 	}
-	if err := db.Close(); err != nil && res.Err == "" {
-		res.Err = "close: " + err.Error()
+	if !closedEarly {
+		closeErr = db.Close()
+	} else {
+		res.ClosedEarly = 1
+	}
+	if closeErr != nil && res.Err == "" {
+		res.Err = "close: " + closeErr.Error()
 	}
 	return res
 }
